@@ -268,10 +268,32 @@ def main(argv=None):
     bc = spec.get("boundscheck", {"quick": False, "thorough": True})[tier]
     env = worker_env(pid, bc, thash)
     os.makedirs(WORK, exist_ok=True)
-    # purge stale numba caches of other tree versions
+    # purge numba caches of other tree versions, but only ones no run has touched for six
+    # hours: a check of another tree (VERIF_REPO_DIR) may be running concurrently from this
+    # same /verif, and deleting its cache under it makes numba raise FileNotFoundError
+    now = time.time()
     for d in os.listdir(WORK):
         if d.startswith("nbcache-") and thash not in d:
-            shutil.rmtree(os.path.join(WORK, d), ignore_errors=True)
+            try:
+                if now - os.path.getmtime(os.path.join(WORK, d)) > 6 * 3600:
+                    shutil.rmtree(os.path.join(WORK, d), ignore_errors=True)
+            except OSError:
+                pass
+    for d in os.listdir(WORK):
+        # worker stderr logs of earlier runs that ended with alarms or inconclusive cases
+        if not d.startswith("nbcache-"):
+            try:
+                if now - os.path.getmtime(os.path.join(WORK, d)) > 12 * 3600:
+                    shutil.rmtree(os.path.join(WORK, d), ignore_errors=True)
+            except OSError:
+                pass
+    for bcv in (0, 1):
+        cur = os.path.join(WORK, "nbcache-%s-bc%d" % (thash, bcv))
+        if os.path.isdir(cur):
+            try:
+                os.utime(cur, None)
+            except OSError:
+                pass
     workdir = os.path.join(WORK, "%s-%s-%d-%d" % (pid, tier, seed, os.getpid()))
     shutil.rmtree(workdir, ignore_errors=True)
     os.makedirs(workdir)
